@@ -164,6 +164,8 @@ func main() {
 	})
 	// part 2
 	rn.run("recon", c.N(4000, 40000), 1, func(i int, rng *rand.Rand) *result { return reconCase(i, rng, base) })
+	// part 5
+	rn.run("interleave", c.N(150, 2000), 0, func(i int, rng *rand.Rand) *result { return interleaveCase(i, rng) })
 	// part 3
 	rn.run("xrd", c.N(2000, 20000), 1, func(i int, rng *rand.Rand) *result { return xrdCase(i, rng) })
 	// part 4
